@@ -40,6 +40,9 @@ def source_of(case):
     if k == 'repo':
         sn = snippets()[case['idx']]
         return sn['src'], {'rnd': sn['rnd'], 'timer': sn['timer']}, {'snippet': sn}
+    if k == 'tour':
+        from . import tour
+        return tour.TOUR[case['idx']], dict(tour.SCRIPT), {}
     if k == 'text':
         return case['text'], case.get('scriptv') or gen_script(case.get('seed', 0)), {}
     raise ValueError(k)
